@@ -662,10 +662,14 @@ def gen_history(rng, lang, n, invalid=0.2, names=None, attackers=True):
             r2 = rng.random()
             if r2 < 0.35:
                 aid = rng.choice([0, 0, 1, 2, 3, 5, 7, -1, -3, 12])
+            elif r2 < 0.38:
+                aid = rng.choice([255, 256, 65536, 2 ** 31 - 1, 2 ** 31, 2 ** 63 - 1, 10 ** 12, -2 ** 31])
             typ = rng.choice(conc)
             name = rng.choice(names)
             if rng.random() < 0.1:
                 name = '%s:%d' % (typ, rng.choice([0, 1, 2, 3]))     # what an unnamed asset would be called
+            elif rng.random() < 0.02:
+                name = rng.choice(['n' * 300, ' padded ', '0123456789' * 13, 'e\u0301', '1', 'true'])
             ops.append(['add_asset', typ, name, aid, rng.random() < 0.8])
         elif r < 0.40:
             ops.append(['remove_asset', rref(rng, 0.5 if bad else 0.0)])
